@@ -1,6 +1,7 @@
 package props
 
 import (
+	"encoding/json"
 	"fmt"
 	z "github.com/Oudwins/zog"
 	"reflect"
@@ -408,6 +409,11 @@ func (c19) RunCase(c *core.Ctx) {
 		d := gen.ParseInput(c.R, n, gen.InOpts{ValidPct: 55, AbsentPct: 30, WrongPct: 5})
 		if c.R.Bool() {
 			d = typedInput(n, d)
+		}
+		if c.R.Intn(6) == 0 {
+			// a map the caller decoded itself with json.Decoder.UseNumber(): json.Number values inside nested containers (whatever they
+			// mean to the schema, they stay what they are in the caller's data)
+			d = gen.InjectHostile(c.R, d, []any{map[string]any{"k": json.Number("2"), "l": []any{json.Number("3"), "x"}}, []any{json.Number("1"), json.Number("9007199254740993")}}[c.R.Intn(2)])
 		}
 		inputs = append(inputs, inp{data: d, val: gen.ValueTree(c.R, n, gen.InOpts{ValidPct: 55, AbsentPct: 35}, false)})
 	}
